@@ -100,6 +100,8 @@ def link_problems(db, m):
             bad(f'group {g.name} has {len(g.items)} items, declared {len(mg["items"])}')
         if mg['note'] and (g.note is None or g.note.parent is not g):
             bad(f'group {g.name}.note.parent is not the group')
+        if g.note is not None and g.note.parent is not g:
+            bad(f'group {g.name} has a note object (text {g.note.text!r}) whose parent is not the group')
     for n in db.sticky_notes:
         if n.database is not db:
             bad(f'sticky note {n.name}.database is not the database')
